@@ -1,7 +1,9 @@
 #!/bin/sh
-# Builds every engine offline from files on disk (path deps on /repo).
+# Builds every engine offline from files on disk (path deps on /repo), and the getrandom shim.
 set -e
 cd "$(dirname "$0")/engines"
 export CARGO_NET_OFFLINE=true RUST_BACKTRACE=0
 export CARGO_TARGET_DIR=/verif/target
 cargo build --release --offline --workspace
+mkdir -p /verif/target/shim
+gcc -shared -fPIC -O2 -o /verif/target/shim/getrandom_shim.so shim/getrandom_shim.c
